@@ -64,6 +64,21 @@ PRIORS_V2.update({
     "months-745-some": v2_group(-7, power=200, sh=8, eh=10, months=0x0801),
     "days-weekend-off": v2_group(0, power=20, sh=8, eh=10, days=0x41, soc=30, months=0x0100),
 })
+# systematic grid: every schedule type x on/off x month mask (all-year explicit, eleven months, one month) x fulltime/window,
+# and day masks other than "every day" - so that no single (type, months, days) combination is left to a hand-picked example
+GRID_PRIORS = []
+for _t in range(7):
+    for _on in (True, False):
+        for _m in (0x0FFF, 0x0FFE, 0x0001):
+            for _ft in (True, False):
+                _n = "grid-t%d-%s-m%03x-%s" % (_t, "on" if _on else "off", _m, "ft" if _ft else "win")
+                PRIORS_V2[_n] = v2_group((-1 - _t) if _on else _t, power=((-30 & 0xFFFF) if _ft and _t % 2 == 0 else (20 if _t != 6 else 200)), soc=60, months=_m,
+                                         **({} if _ft else dict(sh=8, eh=10)))
+                GRID_PRIORS.append(_n)
+        for _d in (0x3E, 0x00):
+            _n = "grid-t%d-%s-d%02x" % (_t, "on" if _on else "off", _d)
+            PRIORS_V2[_n] = v2_group((-1 - _t) if _on else _t, power=(20 if _t != 6 else 200), soc=60, days=_d)
+            GRID_PRIORS.append(_n)
 PRIORS_V1 = {
     "off": bytes.fromhex("3000300000640000"),
     "window-on": bytes.fromhex("080a0a1e0014ff3e"),
@@ -165,7 +180,7 @@ def run_mode_case(acc: Acc, case):
     if mode not in modes:
         return []
     pc = case["prior"]
-    prior_class = pc.split("-")[0] if pc.startswith(("type", "months", "days")) else ("fulltime-charge" if pc.startswith("fulltime-charge") else pc)
+    prior_class = pc.split("-")[0] if pc.startswith(("type", "months", "days", "grid")) else ("fulltime-charge" if pc.startswith("fulltime-charge") else pc)
     undecodable_prior = pc in ("garbage", "ones") or "bad" in pc
     key = "C19|%s|%s" % (fam, "emulated" if emulated else mode.name)
     for (m0, p0, s0) in case.get("before", ()):
@@ -175,7 +190,7 @@ def run_mode_case(acc: Acc, case):
                 run_sync(inv.set_operation_mode(OperationMode(m0), p0, s0))
             except ValueError:
                 pass
-    if case.get("before"):
+    if case.get("before") or pc.startswith("grid"):
         # what matters for the call under test is what group 1 holds NOW (same classes as the static priors, so that one root
         # cause keeps one bucket key)
         raw0 = b"".join(get(groups[0] + i).to_bytes(2, "big") for i in range(nregs))
@@ -338,7 +353,7 @@ def encoder_job(job):
 
 
 def mode_job(job):
-    variant, quick = job
+    variant, quick, only_mode = job
     from goodwe.inverter import OperationMode
     acc = Acc()
     inv, _ = build(variant)
@@ -348,9 +363,11 @@ def mode_job(job):
     if not quick:
         grid += [(p, (p * 7) % 101) for p in range(2, 100, 3)]
     for mode in OperationMode:
+        if int(mode) != only_mode:
+            continue
         for prior in priors:
-            for others in ("fulltime-charge", prior):
-                for (p, s) in (grid if mode in (OperationMode.ECO_CHARGE, OperationMode.ECO_DISCHARGE) else grid[:2]):
+            for others in (("fulltime-charge", prior) if not prior.startswith("grid") else ("fulltime-charge",)):
+                for (p, s) in ((grid if not prior.startswith("grid") else grid[1:4]) if mode in (OperationMode.ECO_CHARGE, OperationMode.ECO_DISCHARGE) else grid[:2]):
                     case = {"variant": variant, "mode": int(mode), "power": p, "soc": s, "prior": prior, "others": others}
                     _apply(acc, case, run_mode_case)
                     if mode in (OperationMode.ECO_CHARGE, OperationMode.ECO_DISCHARGE) and others == prior and prior in ("off", "fulltime-charge", "type0-on"):
@@ -550,7 +567,7 @@ def run(ctx):
             ej.append((kind, lo, min(101, lo + 20)))
     ctx.shard(encoder_job, ej, "encoder level: all (power, SoC) pairs x {eco V1, schedule type ECO_MODE, ECO_MODE_745} x charge/discharge")
     ctx.exhaustive_parts.append("encode_charge/encode_discharge for all power 1..100 x SoC 0..100 x 3 group kinds")
-    ctx.shard(mode_job, [(v, ctx.quick) for v in VARIANTS if not v.startswith("DT")], "API level: every mode x every prior group content x variant x (power, SoC) grid")
+    ctx.shard(mode_job, [(v, ctx.quick, m) for v in VARIANTS if not v.startswith("DT") for m in (0, 1, 2, 3, 4, 5, 98, 99)], "API level: every mode x every prior group content x variant x (power, SoC) grid")
     lj = []
     for v in VARIANTS:
         step = 1 if not ctx.quick else 13
